@@ -674,7 +674,8 @@ impl<D: Dispatcher> Conn<D> {
           continue; // Activity detected, skip ping
         }
 
-        let ping_id: u32 = random();
+        // A PING id must be non-zero.
+        let ping_id: u32 = random::<u32>().max(1);
         tx.send_message(Message::Ping(PingParameters { id: ping_id }));
         trace!(id = ping_id, handler, service_type = ST::NAME, "sent ping");
 
